@@ -36,13 +36,17 @@ def parseHex4 (s : Bytes) : Option Int :=
   | 45 :: ds => (hexDigits ds).map (fun n => - Int.ofNat n)
   | ds => (hexDigits ds).map Int.ofNat
 
-/-- the decoding loop; `fuel` bounds the iterations by the input length -/
+/-- the decoding loop; `fuel` bounds the iterations by the input length.  A byte that is not
+    valid UTF-8 (RuneError of width 1) outside an escape is copied as it is, like the fast path. -/
 def loop : Nat → Bytes → Bool → Bytes → Option Bytes
   | 0, _, _, acc => some acc
   | _, [], _, acc => some acc
   | fuel + 1, s, escaping, acc =>
     let (r0, size) := Utf8.decodeRune s
     let s1 := s.drop size
+    if r0 == Utf8.runeError && size == 1 && !escaping then
+      loop fuel s1 escaping (acc ++ s.take 1)
+    else
     -- the rune after processing an escape, and the rest of the input
     let step : Option (Int × Bytes) :=
       if escaping then
